@@ -1,5 +1,9 @@
 import Dashu.Driver.Loop
 import Dashu.Model.NT.Modular
+import Dashu.Model.NT.Gcd
+import Dashu.Model.NT.Root
+import Dashu.Model.NT.Log
+import Dashu.Model.NT.Log2
 /-
   Driver of group `nt` (C12, C13): runs the mirrored model; beside every result it evaluates the
   `Int`/`Nat` specification and appends ` !model-spec-mismatch` if they differ.
@@ -183,6 +187,179 @@ def dispatchC13 : Dispatch := fun W op args =>
       chk ("ok " ++ boolStr (rawOfNat W r a == 0)) ("ok " ++ boolStr (a % m == 0))
   | _, _ => none
 
-def dispatch : Dispatch := fun W op args => dispatchC13 W op args
+
+-- ==================================================================== C12
+
+def f32Hex (f : Float32) : String := natToHex f.toBits.toNat
+
+/-- width of a primitive type name -/
+def primBits : String → Option Nat
+  | "u8" => some 8 | "u16" => some 16 | "u32" => some 32 | "u64" => some 64 | "u128" => some 128
+  | _ => none
+
+def gcdSpec (a b : Nat) : String :=
+  if a = 0 ∧ b = 0 then "panic GcdZeroZero" else "ok " ++ natToHex (Nat.gcd a b)
+
+def gcdExtOut (a b : Int) : Except PanicKind (Nat × Int × Int) → String
+  | .error k => "panic " ++ k.name
+  | .ok (g, s, t) =>
+    if s * a + t * b = (g : Int) then "ok " ++ natToHex g ++ " ok"
+    else "ok " ++ natToHex g ++ " bad:" ++ intToHex s ++ ":" ++ intToHex t
+
+def gcdExtSpec (a b : Int) : String :=
+  if a = 0 ∧ b = 0 then "panic GcdZeroZero" else "ok " ++ natToHex (Nat.gcd a.natAbs b.natAbs) ++ " ok"
+
+/-- relational spec of a floor root, decided by evaluation -/
+def isRoot (x n s : Nat) : Bool := s ^ n ≤ x && x < (s + 1) ^ n
+
+def rootOut (x n : Nat) : Except PanicKind Nat → String
+  | .error k => "panic " ++ k.name
+  | .ok s => if isRoot x n s then "ok " ++ natToHex s else "ok " ++ natToHex s ++ " !model-spec-mismatch not-the-floor-root"
+
+def rootIntOut (x : Int) (n : Nat) : Except PanicKind Int → String
+  | .error k => "panic " ++ k.name
+  | .ok s =>
+    if isRoot x.natAbs n s.natAbs ∧ (s = 0 ∨ (s < 0 ↔ x < 0)) then "ok " ++ intToHex s
+    else "ok " ++ intToHex s ++ " !model-spec-mismatch not-the-truncated-root"
+
+def estOne : Nat → Nat → Nat := fun _ _ => 1
+
+def ilogOut (W x base : Nat) : String :=
+  match logRepr W true estOne x base with
+  | .error k => "panic " ++ k.name
+  | .ok (e, p) =>
+    if p = base ^ e ∧ p ≤ x ∧ x < p * base then "ok " ++ decStr e
+    else "ok " ++ decStr e ++ " !model-spec-mismatch not-the-floor-log"
+
+def log2bOut (b : Float32 × Float32) (num den : Nat) : String :=
+  f32Hex b.1 ++ " " ++ f32Hex b.2 ++ enclosureMark b.1 b.2 num den
+
+def dispatchC12 : Dispatch := fun W op args =>
+  match op, args with
+  | "u.gcd", [a, b] | "i.gcd", [a, b] | "ui.gcd", [a, b] | "iu.gcd", [a, b] => do
+    let a ← parseInt a; let b ← parseInt b
+    pure (chk (exc natToHex (gcdRepr W a.natAbs b.natAbs)) (gcdSpec a.natAbs b.natAbs))
+  | "u.gcdext", [a, b] | "i.gcdext", [a, b] | "ui.gcdext", [a, b] | "iu.gcdext", [a, b] => do
+    let a ← parseInt a; let b ← parseInt b
+    pure (chk (gcdExtOut a b (gcdExtInt W lehmerExtFrontier a b)) (gcdExtSpec a b))
+  | "u.sqrt", [a] => do
+    let a ← parseNat a
+    pure (rootOut a 2 (.ok (sqrtRepr W a)))
+  | "u.sqrtrem", [a] => do
+    let a ← parseNat a
+    let (s, r) := sqrtRemRepr W true a
+    pure (if isRoot a 2 s ∧ s * s + r = a then "ok " ++ natToHex s ++ " " ++ natToHex r
+          else "ok " ++ natToHex s ++ " " ++ natToHex r ++ " !model-spec-mismatch")
+  | "u.cbrt", [a] => do
+    let a ← parseNat a
+    pure (rootOut a 3 (nthRootRepr W true a 3))
+  | "u.cbrtrem", [a] => do
+    let a ← parseNat a
+    pure (match cbrtRemRepr W true a with
+      | .error k => "panic " ++ k.name ++ " !model-spec-mismatch"
+      | .ok (s, r) => if isRoot a 3 s ∧ s ^ 3 + r = a then "ok " ++ natToHex s ++ " " ++ natToHex r
+                      else "ok " ++ natToHex s ++ " " ++ natToHex r ++ " !model-spec-mismatch")
+  | "u.nthroot", [a, n] => do
+    let a ← parseNat a; let n ← parseDecNat n
+    pure (if n = 0 then chk (exc natToHex (nthRootRepr W true a n)) "panic RootZeroth"
+          else rootOut a n (nthRootRepr W true a n))
+  | "i.sqrt", [a] => do
+    let a ← parseInt a
+    pure (if a < 0 then chk (exc natToHex (sqrtInt W a)) "panic RootNegative" else rootOut a.natAbs 2 (sqrtInt W a))
+  | "i.cbrt", [a] => do
+    let a ← parseInt a
+    pure (rootIntOut a 3 (cbrtInt W true a))
+  | "i.nthroot", [a, n] => do
+    let a ← parseInt a; let n ← parseDecNat n
+    let m := nthRootInt W true a n
+    pure (if n = 0 then chk (exc intToHex m) "panic RootZeroth"
+          else if a < 0 ∧ n % 2 = 0 then chk (exc intToHex m) "panic RootNegative"
+          else rootIntOut a n m)
+  | "u.ilog", [a, b] | "i.ilog", [a, b] => do
+    let a ← parseInt a; let b ← parseNat b
+    pure (if a = 0 ∨ b < 2 then
+            chk (match logRepr W true estOne a.natAbs b with | .ok (e, _) => "ok " ++ decStr e | .error k => "panic " ++ k.name)
+                "panic LogInvalid"
+          else ilogOut W a.natAbs b)
+  | "u.remove", [a, f] => do
+    let a ← parseNat a; let f ← parseNat f
+    pure (match removeRepr a f with
+      | none => chk ("ok none " ++ natToHex a) (if a = 0 ∨ f < 2 then "ok none " ++ natToHex a else "ok some")
+      | some (e, q) =>
+        if a ≠ 0 ∧ f ≥ 2 ∧ q * f ^ e = a ∧ q % f ≠ 0 then "ok some " ++ decStr e ++ " " ++ natToHex q
+        else "ok some " ++ decStr e ++ " " ++ natToHex q ++ " !model-spec-mismatch not-the-multiplicity")
+  | "u.log2b", [a] | "i.log2b", [a] => do
+    let a ← parseInt a
+    pure ("ok " ++ log2bOut (log2BoundsNat W a.natAbs) a.natAbs 1)
+  | "f2.log2b", [s, e] | "f10.log2b", [s, e] => do
+    let s ← parseInt s; let e ← parseDec e
+    let B := if op = "f2.log2b" then 2 else 10
+    -- `Repr::new` normalises: the full power of B is moved from the significand into the exponent
+    let (s, e) : Int × Int :=
+      if s = 0 then (0, 0) else
+      match removeRepr s.natAbs B with
+      | some (k, q) => ((if s < 0 then -(q : Int) else q), e + k)
+      | none => (s, e)
+    let (num, den) : Nat × Nat := if e ≥ 0 then (s.natAbs * B ^ e.toNat, 1) else (s.natAbs, B ^ (-e).toNat)
+    pure ("ok " ++ log2bOut (log2BoundsFloat W B s e) num den)
+  | "q.log2b", [n, d] => do
+    let n ← parseInt n; let d ← parseNat d
+    if d = 0 then pure "panic DivideByZero" else
+    -- RBig: lowest terms; Relaxed: only the common power of two removed
+    let g := Nat.gcd n.natAbs d
+    let (n1, d1) : Int × Nat := if n = 0 then (0, 1) else (n / (g : Int), d / g)
+    let z := min (trailingZeros n.natAbs) (trailingZeros d)
+    let (n2, d2) : Int × Nat := if n = 0 then (0, 1) else (n / (2 ^ z : Nat), d / 2 ^ z)
+    let one (nn : Int) (dd : Nat) : String :=
+      let b := log2BoundsRat W nn dd
+      f32Hex b.1 ++ "," ++ f32Hex b.2 ++ enclosureMark b.1 b.2 nn.natAbs dd
+    pure ("ok " ++ one n1 d1 ++ " " ++ one n2 d2)
+  -- ---- primitives of dashu_base
+  | "p.gcd", [ty, a, b] => do
+    let _ ← primBits ty; let a ← parseNat a; let b ← parseNat b
+    pure (chk (exc natToHex (gcdPrim a b)) (gcdSpec a b))
+  | "p.gcdext", [ty, a, b] => do
+    let _ ← primBits ty; let a ← parseNat a; let b ← parseNat b
+    pure (chk (gcdExtOut a b (xgcdPrim a b)) (gcdExtSpec a b))
+  | "p.sqrtrem", [ty, a] => do
+    let _ ← primBits ty; let a ← parseNat a
+    let (s, r) := sqrtRemPrimFrontier a
+    pure (if isRoot a 2 s ∧ s * s + r = a then "ok " ++ natToHex s ++ " " ++ natToHex r else "ok !model-spec-mismatch")
+  | "p.cbrtrem", [ty, a] => do
+    let _ ← primBits ty; let a ← parseNat a
+    let s := iroot a 3
+    pure (if isRoot a 3 s then "ok " ++ natToHex s ++ " " ++ natToHex (a - s ^ 3) else "ok !model-spec-mismatch")
+  | "p.log2b", [ty, a] => do
+    let _ ← primBits ty; let a ← parseNat a
+    pure ("ok " ++ log2bOut (log2BoundsPrim a) a 1)
+  | "p.sqrtrange", [ty, lo, hi] | "p.cbrtrange", [ty, lo, hi] | "p.log2brange", [ty, lo, hi] => do
+    let _ ← primBits ty; let lo ← parseDecNat lo; let hi ← parseDecNat hi
+    let item (v : Nat) : String :=
+      if op = "p.sqrtrange" then
+        let s := iroot v 2
+        natToHex s ++ ":" ++ natToHex (v - s * s) ++ (if isRoot v 2 s then "" else " !model-spec-mismatch")
+      else if op = "p.cbrtrange" then
+        let s := iroot v 3
+        natToHex s ++ ":" ++ natToHex (v - s ^ 3) ++ (if isRoot v 3 s then "" else " !model-spec-mismatch")
+      else
+        let b := log2BoundsPrim v
+        f32Hex b.1 ++ ":" ++ f32Hex b.2 ++ enclosureMark b.1 b.2 v 1
+    pure ("ok " ++ ",".intercalate ((List.range (hi - lo)).map fun i => item (lo + i)))
+  | "p.gcdrow", [ty, a, lo, hi] => do
+    let _ ← primBits ty; let a ← parseDecNat a; let lo ← parseDecNat lo; let hi ← parseDecNat hi
+    let item (v : Nat) : String :=
+      if a = 0 ∧ v = 0 then "z"
+      else match gcdPrim a v, xgcdPrim a v with
+        | .ok g, .ok (g2, s, t) =>
+          if g = Nat.gcd a v ∧ g2 = g ∧ s * a + t * v = (g : Int) then natToHex g
+          else natToHex g ++ " !model-spec-mismatch"
+        | _, _ => "!model-spec-mismatch"
+    pure ("ok " ++ ",".intercalate ((List.range (hi - lo)).map fun i => item (lo + i)))
+  | _, _ => none
+
+def dispatch : Dispatch := fun W op args =>
+  match dispatchC13 W op args with
+  | some r => some r
+  | none => dispatchC12 W op args
 
 end Dashu.Driver.NT
